@@ -162,6 +162,12 @@ twin('c02-renew-left-local', 'C02', M, 'Method.RenewSearchData',
      '        left = oldpoint.GetLeft()\n        oldpoint.delta = Method.CalculateDelta(newpoint.GetX(), oldpoint.GetX(), self.dimension)')
 twin('c02-sel-nodeepcopy', 'C02', M, 'Method.CalculateIterationPoint',
      'new = copy.deepcopy(SearchDataItem(Point(newy, []), newx))', 'new = SearchDataItem(Point(newy, []), newx)')
+fire('c02-refine-rewrites-z', 'C02', P, 'Process.DoLocalRefinement', '        result.numberOfLocalTrials = nelder_mead.nfev',
+     '        self.method.GetOptimumEstimation().SetZ(result.bestTrials[0].functionValues[0].value)\n'
+     '        result.numberOfLocalTrials = nelder_mead.nfev', 'R02.9')
+fire('c02-refine-writes-zstar', 'C02', P, 'Process.DoLocalRefinement', '        result.numberOfLocalTrials = nelder_mead.nfev',
+     '        self.method.Z[0] = result.bestTrials[0].functionValues[0].value\n'
+     '        result.numberOfLocalTrials = nelder_mead.nfev', 'R02.5')
 
 # ----------------------------------------------------------------------------- C03
 OT = 'iOpt/method/optim_task.py'
@@ -239,6 +245,11 @@ twin('c03-acc-commuted', 'C03', M, 'Method.CalculateIterationPoint',
      'self.min_delta = min(old.delta, self.min_delta)', 'self.min_delta = min(self.min_delta, old.delta)')
 fire('c03-new-while', 'C03', M, 'Method.RecalcAllCharacteristics', '        self.searchData.RefillQueue()\n',
      '        while self.recalc:\n            pass\n        self.searchData.RefillQueue()\n', 'R03.7')
+fire('c03-eps-clamped-in-solver', 'C03', SV, 'Solver.__init__', '        self.__listeners: List[Listener] = []',
+     '        if parameters.eps < 2.0 ** (-parameters.evolventDensity):\n            parameters.eps = 2.0 ** (-parameters.evolventDensity)\n'
+     '        self.__listeners: List[Listener] = []', 'R03.8')
+fire('c03-limit-raised-in-method', 'C03', M, 'Method.__init__', '        self.stop: bool = False\n',
+     '        self.stop: bool = False\n        parameters.itersLimit = max(parameters.itersLimit, 10)\n', 'R03.8')
 
 # ----------------------------------------------------------------------------- C04
 fire('c04-no-update', 'C04', P, 'Process.DoGlobalIteration', '                self.method.UpdateOptimum(newpoint)\n', '',
@@ -321,6 +332,10 @@ fire('c04-foreign-point', 'C04', M, 'Method.FirstIteration', _START_TRIAL[0],
 twin('c04-own-point-copy', 'C04', M, 'Method.FirstIteration', _START_TRIAL[0],
      _START_TRIAL[1] % 'Point(np.array(self.parameters.startPoint.floatVariables, dtype=np.double), None)',
      why='a private copy of the start point: C04 is indifferent (other properties object to the extra trial)')
+_EVAL = '        point = self.task.Calculate(point, 0)\n'
+fire('c04-value-copied-from-neighbour', 'C04', M, 'Method.CalculateFunctionals', _EVAL,
+     '        if self.best is not None and np.allclose(self.best.GetY().floatVariables, point.GetY().floatVariables):\n'
+     '            point.functionValues[0].value = self.best.functionValues[0].value\n        else:\n    ' + _EVAL, 'R04.4')
 
 # ----------------------------------------------------------------------------- C06
 fire('c06-relink-swapped', 'C06', SD, 'SearchData.InsertDataItem',
@@ -459,6 +474,19 @@ twin('c19-lazy-commuted', 'C19', SD, f'{DQ}.GetDataItemWithMaxGlobalR', 'while b
      'while bestItem[0].globalR != bestItem[1]:')
 twin('c19-lazy-unpacked', 'C19', SD, f'{DQ}.GetDataItemWithMaxGlobalR', 'while bestItem[1] != bestItem[0].globalR:',
      'while not (bestItem[1] == bestItem[0].globalR):')
+_QINS = '        self.__baseQueue.insert(dataItem, key)'
+fire('c19-insert-skips-on-cached-low', 'C19', SD, 'CharacteristicsQueue.Insert', _QINS,
+     '        if self.__baseQueue.maxlen is not None and len(self.__baseQueue) >= self.__baseQueue.maxlen:\n'
+     '            if key <= self.lowKey:\n                return\n'
+     '            self.__baseQueue.insert(dataItem, key)\n            self.lowKey = self.__baseQueue.low()\n'
+     '        else:\n            self.__baseQueue.insert(dataItem, key)', 'R19.5',
+     also=[(SD, 'CharacteristicsQueue.__init__', 'self.__baseQueue = DEPQ(iterable=None, maxlen=maxlen)',
+            'self.__baseQueue = DEPQ(iterable=None, maxlen=maxlen)\n        self.lowKey = -np.inf')],
+     why='the cached lowest key is stale after pops')
+twin('c19-insert-skips-on-fresh-low', 'C19', SD, 'CharacteristicsQueue.Insert', _QINS,
+     '        if self.__baseQueue.maxlen is not None and len(self.__baseQueue) >= self.__baseQueue.maxlen:\n'
+     '            if key <= self.__baseQueue.low():\n                return\n'
+     + _QINS, why='skipping against the current lowest priority is what DEPQ would do anyway')
 
 # ----------------------------------------------------------------------------- C16
 fire('c16-except-exception', 'C16', P, 'Process.Solve', 'except BaseException:', 'except Exception:', 'R16.1')
